@@ -484,21 +484,48 @@ func ackOnEveryPath(c *core.Ctx, rule string) {
 		}
 		r := ssax.Analyze(ph, ssax.ReachOpts{Pins: pins})
 		var bad ssa.Instruction
-		to := func(in ssa.Instruction) bool {
+		// a value is a failure when it is provably non-nil there, or the repo's wrap helper applied to a non-nil error
+		failure := func(at ssa.Instruction, v ssa.Value) bool {
+			if r.FactAt(at, v, false).K == ssax.NonNil {
+				return true
+			}
+			if call, ok := v.(*ssa.Call); ok && isCallTo(call, "server.converError") && r.FactAt(call, call.Call.Args[0], false).K == ssax.NonNil {
+				return true
+			}
+			return false
+		}
+		// success exits: returns whose result is not a failure; when the result joins several paths (a phi, as
+		// left behind by an inlined helper), each incoming edge is an exit of its own
+		targets := map[ssa.Instruction]bool{}
+		ssax.Instrs(ph, false, func(_ *ssa.Function, in ssa.Instruction) {
 			ret, ok := in.(*ssa.Return)
-			if !ok || len(ret.Results) == 0 {
-				return false
+			if !ok || len(ret.Results) == 0 || !r.Reachable(ret) {
+				return
 			}
 			res := ret.Results[len(ret.Results)-1]
-			if r.FactAt(ret, res, false).K == ssax.NonNil {
-				return false
+			if failure(ret, res) {
+				return // refined by the branch that leads here (e.g. "if cerr != nil { return cerr }")
 			}
-			// the repo's wrap helper: converError(err) with err known to be non-nil is a failure return
-			if call, ok := res.(*ssa.Call); ok && isCallTo(call, "server.converError") && r.FactAt(call, call.Call.Args[0], false).K == ssax.NonNil {
-				return false
+			var walk func(v ssa.Value, at ssa.Instruction, depth int)
+			walk = func(v ssa.Value, at ssa.Instruction, depth int) {
+				// only a join that falls straight into the return (phi in the block of the return, or in the block
+				// the edge comes from) is split into its edges
+				if phi, isPhi := v.(*ssa.Phi); isPhi && depth < 4 && phi.Block() == at.Block() {
+					for i, e := range phi.Edges {
+						pred := phi.Block().Preds[i]
+						if len(pred.Instrs) > 0 {
+							walk(e, pred.Instrs[len(pred.Instrs)-1], depth+1)
+						}
+					}
+					return
+				}
+				if !failure(at, v) {
+					targets[at] = true
+				}
 			}
-			return true
-		}
+			walk(res, ret, 0)
+		})
+		to := func(in ssa.Instruction) bool { return targets[in] }
 		if in, found := (ssax.PathQuery{Fn: ph, To: to, Avoid: isWrite, Feasible: r}).Find(); found {
 			bad = in
 		}
